@@ -277,6 +277,13 @@ fn process_job(job: &Value, seed: u64, vectors: usize, ample_gas: usize) -> Vec<
                 }
                 json!({"id": mid, "accepted": true, "err": "", "stage": "", "plan": plan.to_json(), "export": export_program(&mp, Some(mb)),
                        "sierra": mp.to_string()})
+            } else if job.get("export_rejected").and_then(|x| x.as_bool()).unwrap_or(false) {
+                let reg = catch_unwind(AssertUnwindSafe(|| CoreRegistry::new(&mp))).ok().and_then(|r| r.ok());
+                match reg {
+                    Some(reg) => json!({"id": mid, "accepted": false, "err": "", "stage": "compile", "plan": plan.to_json(),
+                                        "export": export_program_ex(&mp, None, Some(&reg))}),
+                    None => json!({"id": mid, "accepted": false, "err": "", "stage": "registry", "plan": plan.to_json()}),
+                }
             } else {
                 json!({"id": mid, "accepted": false, "err": "", "stage": "build", "plan": plan.to_json()})
             };
